@@ -46,6 +46,7 @@ def INIT(): return St("init")
 def ANON(body): return St("anon", body)
 def N(k): return St("n", n=k)
 def BLOCK(body): return St("block", body)
+def DECL(): return St("decl")      # a function-like header WITHOUT a body of its own (Python one-liner, TypeScript overload signature, C prototype)
 
 
 class Region:
@@ -166,6 +167,16 @@ class Renderer:
                 self.line(depth, f"{kw} (x) {{")
                 self.stmts(st.body, depth + 1)
                 self.line(depth, "}")
+        elif k == "decl":
+            n = self.var()
+            if py:
+                self.line(depth, f"def short_{n}(v): return v")
+            elif self.fam == "ts":
+                self.line(depth, f"function over_{n}(a: number): number;")
+            elif self.fam in ("c", "cpp"):
+                self.line(depth, f"int proto_{n}(int a);")
+            else:
+                self.line(depth, f"{n} = 2{end}")
         elif k == "block":      # a bare brace block (Java/C# instance initialiser, block statement) - never a function
             if py:
                 self.line(depth, f"{self.var()} = 3")
@@ -523,6 +534,14 @@ def extra_programs(lang):
     if fam in ("js", "ts"):
         P["x-arrow-default-arrow"] = [F("handler", [RET()], kind="arrow", params="arrowdefault"), F("plain", [RET()])]
         P["x-fn-default-arrow"] = [F("handler", [RET()], kind="fn", params="arrowdefault"), F("plain", [RET()])]
+    if fam in ("js", "ts"):
+        # the two header patterns of JS/TS (function keyword / arrow) interleaved in source order, also nested in each other
+        P["x-arrow-then-fn"] = [F("first", [RET()], kind="arrow"), F("second", [S(), RET()]), F("third", [RET()], kind="arrow"), F("fourth", [RET()])]
+        P["x-arrow-encloses-fn"] = [F("outer", [S(), F("inner", [RET()]), RET()], kind="arrow"), F("after", [RET()])]
+    if fam in ("py", "ts", "c", "cpp"):
+        # headers without a body of their own in front of / between ordinary functions (not in C01's family: whether a one-line def is itself a function to report is not this framework's call)
+        P["x-decl-first"] = [DECL(), F("f1", [S(), IF([S()]), RET()]), F("f2", [S(), RET()])]
+        P["x-decl-middle"] = [F("f1", [S(), RET()]), DECL(), DECL(), F("f2", [S(), LOOP([S()]), RET()]), F("f3", [RET()])]
     return P
 
 
